@@ -9,8 +9,8 @@
   Part 1: C02's `argsProcess` on segments (adapter: `^file` pushes a whole hostlist, so C02's
           `cliWords_correct` cannot be reused structurally — only through the invariants
           Good / IdsOk / its = [] / hosts).
-  Part 2: C02's `finish` from any state with these invariants (the second half of `cliWords_correct`,
-          generalised).
+  Part 2: C02's `finish` in the repaired order (F02-2BR: `wcoll_expand` first) from any list that denotes the
+          first-level names: C01's `wcoll_expand₂` applies as it stands, two pairs of brackets included.
   Part 3: the table `Env.files` filled by C10's reader; the WCOLL step of `opt_args`.
 -/
 import PdshVerif.Opt.ExcludeCompose
@@ -233,55 +233,41 @@ theorem foldl_step_spec (cfg : Cfg) : ∀ (segs : List Seg) (st : St) (T : List 
       | xfile _ _ => simp [Seg.reg]
     · rw [b4, a4, Bool.or_assoc]
 
-/-! ## Part 2: `finish` from any state with the invariants -/
-/-- the tail of `opt_args` (exclusions, filters, re-expansion) on a list `e` with hosts `T`, all plain names:
-    the second half of C02's `cliWords_correct`, for ANY such list -/
+/-! ## Part 2: `finish` (F02-2BR repaired order) from any list that denotes the first-level names -/
+/-- the tail of `opt_args` in the repaired order — re-expansion (C01's `wcoll_expand₂`, applied as it stands),
+    exclusions name by name, filters — on ANY list `e` that denotes the first-level expansion of well-formed
+    words `ws`: the full two-level expansion, minus the excluded names, filtered.  Two pairs of brackets allowed. -/
 theorem finish_correct (cfg : Cfg) (hD1 : cfg.fixDeleteAll = true) (hD17 : cfg.fixIterSuffix = true)
-    (hD19 : cfg.fixRemoveDepth = true) (env : Env) (e : EL) (T : List Str)
+    (hD19 : cfg.fixRemoveDepth = true) (h2 : cfg.fix2Br = true) (env : Env) (e : EL) (ws : List Spec.Word)
     (es : List (Str × List Str)) (rs : List (Bool × Str))
-    (hI : WInv (some e) T) (hlow : e.HiBelow (10 ^ 15))
-    (hes : ∀ p ∈ es, EntryOk cfg p.1 p.2)
-    (horacle : ∀ p ∈ rs, ∀ h ∈ T, (env.rematch p.2 h).isSome = true)
-    (hplain : ∀ h ∈ T, (Spec.Word.plain h).WF = true ∧ wordDom cfg (Spec.Word.plain h)) :
+    (hg : e.Good) (hh : e.hosts = Spec.expand₁ ws)
+    (hwf : ∀ w ∈ ws, w.WF = true) (hd2 : ∀ w ∈ ws, ∀ w' ∈ reword w, wordDom cfg w')
+    (hsf : ∀ r ∈ e.ranges, r.ShiftFits)
+    (hes : ∀ p ∈ es, Entry2Ok cfg p.1 p.2)
+    (horacle : ∀ p ∈ rs, ∀ h ∈ Spec.expand₂ ws, (env.rematch p.2 h).isSome = true) :
     finish cfg env { wcoll := some e, excl := es.map (·.1), regex := rs } =
-      .ok ((T.filter fun h => !(es.flatMap (·.2)).contains h).filter (keepAll env rs)) := by
-  obtain ⟨g0, hid0, hits0, hT⟩ := hI
-  obtain ⟨e1, ha1, g1, hh1⟩ := applyExcluded_repaired cfg hD1 es e g0 hes
-  have k1 := applyExcluded_keeps cfg hD1 (10 ^ 15) es e g0 hes e1 ha1
-  let P : HRange → Prop := fun r => r.hi < 10 ^ 15
-  have hmono : ∀ r r' : HRange, P r → r'.width = r.width → r'.hi ≤ r.hi → r'.single = r.single → P r' :=
-    fun r r' h _ hh _ => Nat.lt_of_le_of_lt hh h
-  have hPF : ∀ r, P r → r.PrintsFull cfg := fun _ _ => Or.inl hD17
-  have hsub1 : ∀ h ∈ e1.hosts, h ∈ T := by
-    intro h hh; rw [hh1, hT] at hh; exact (List.mem_filter.mp hh).1
-  obtain ⟨e2, ha2, hh2, hid2, g2, hP2, _⟩ := applyRegex_spec cfg hD19 P hmono hPF env rs e1
-    (k1.ids hid0) g1 (k1.hi hlow) (k1.its hits0)
-    (fun p hp h hh => horacle p hp h (hsub1 h hh))
-  have hsub2 : ∀ h ∈ e2.hosts, h ∈ T := by
-    intro h hh; rw [hh2] at hh; exact hsub1 h (List.mem_filter.mp hh).1
-  have hg2' : e2.toHL.Good := (EL.good_iff e2).mp g2
-  have hsf : ∀ r ∈ e2.toHL.ranges.toList, r.ShiftFits := by
-    intro r hr _
-    have hr' : r ∈ e2.ranges := by simpa [EL.toHL] using hr
-    have := ndig_le_of_lt_pow (by decide : 0 < 15) (hP2 r hr')
-    omega
-  obtain ⟨h', hw1, _, hw3⟩ := wcollExpand_words cfg e2.toHL hg2' hsf (e2.hosts.map Spec.Word.plain)
-    (by rw [EL.toHL_hosts, map_render_plain])
-    (fun w hw => by
-      obtain ⟨h, hh, rfl⟩ := List.mem_map.mp hw
-      exact (hplain h (hsub2 h hh)).1)
-    (fun w hw => by
-      obtain ⟨h, hh, rfl⟩ := List.mem_map.mp hw
-      exact (hplain h (hsub2 h hh)).2)
+      .ok (((Spec.expand₂ ws).filter fun h => !(es.flatMap (·.2)).contains h).filter (keepAll env rs)) := by
+  have hwf' : Spec.WF ws = true := by
+    unfold Spec.WF; simpa [List.all_eq_true] using hwf
+  obtain ⟨h', hw1, hg', hw3⟩ := wcollExpand_expand₂ cfg ws hwf' hd2 e.toHL ((EL.good_iff e).mp hg)
+    (fun r hr => hsf r (by simpa [EL.toHL] using hr)) (by rw [EL.toHL_hosts, hh])
+  have hH : (ofHL h').hosts = Spec.expand₂ ws := by rw [ofHL_hosts, hw3]
+  obtain ⟨e1, ha1, g1, hh1, k1⟩ := applyExcluded2_repaired cfg hD1 0 es (ofHL h') (ofHL_good h' hg') hes
+  have hsub1 : ∀ h ∈ e1.hosts, h ∈ Spec.expand₂ ws := by
+    intro h hh'; rw [hh1, hH] at hh'; exact (List.mem_filter.mp hh').1
+  obtain ⟨e2, ha2, hh2, _, _, _, _⟩ := applyRegex_spec cfg hD19 (fun _ => True) (fun _ _ _ _ _ _ => trivial)
+    (fun _ _ => Or.inl hD17) env rs e1 (k1.ids (ofHL_ids h')) g1 (fun _ _ => trivial) (k1.its rfl)
+    (fun p hp h hh' => horacle p hp h (hsub1 h hh'))
   unfold finish
+  simp only [h2, ↓reduceIte]
+  unfold finish2
+  rw [hw1]
   simp only
   rw [ha1]
   simp only
   rw [ha2]
-  simp only
-  rw [hw1]
   simp only [Res.ok.injEq]
-  rw [hw3, expand₁_plain, hh2, hh1, hT]
+  rw [hh2, hh1, hH]
 
 /-! ## Part 3: the file table filled by C10's reader, the WCOLL step -/
 open PdshVerif.Opt.Wcoll (LineMode FS readWcoll FileOK FsOK ContentOK LineOK PlainPath inclOK joinLines)
@@ -549,7 +535,6 @@ theorem xTextB_sound {t : Str} (h : xTextB t = true) : XText t := by
 
 instance (e : EL) : Decidable e.Good := by unfold EL.Good; exact inferInstance
 instance (x : Str) : Decidable (SmallName x) := by unfold SmallName; exact inferInstance
-instance (B : Nat) (e : EL) : Decidable (e.HiBelow B) := by unfold EL.HiBelow; exact inferInstance
 
 /-- C02's `EntryOk`, decided -/
 def entryOkB (cfg : Cfg) (s : Str) (names : List Str) : Bool :=
@@ -567,18 +552,14 @@ theorem entryOkB_sound {cfg : Cfg} {s : Str} {names : List Str} (h : entryOkB cf
     exact ⟨t, ht, of_decide_eq_true h⟩
   · cases h
 
-def oneBracketB : Spec.Word → Bool
-  | .plain _ => true
-  | .br _ _ _ none => true
-  | .br _ _ _ (some _) => false
+/-- C02's `Entry2Ok` (repaired `wcoll_apply_excluded`: every name goes through `hostlist_delete` on its own) -/
+def entry2OkB (cfg : Cfg) (s : Str) (names : List Str) : Bool :=
+  entryOkB cfg s names && names.all fun n => entryOkB cfg n [n]
 
-theorem oneBracketB_sound {w : Spec.Word} (h : oneBracketB w = true) : OneBracket w := by
-  cases w with
-  | plain n => trivial
-  | br pre g1 mid g2 =>
-    cases g2 with
-    | none => trivial
-    | some p => simp [oneBracketB] at h
+theorem entry2OkB_sound {cfg : Cfg} {s : Str} {names : List Str} (h : entry2OkB cfg s names = true) :
+    Entry2Ok cfg s names := by
+  simp only [entry2OkB, Bool.and_eq_true, List.all_eq_true] at h
+  exact ⟨entryOkB_sound h.1, fun n hn => entryOkB_sound (h.2 n hn)⟩
 
 def wordsFineB (cfg : Cfg) (ws : List Spec.Word) : Bool := ws.all fun w => w.WF && decide (wordDom cfg w)
 
@@ -587,46 +568,52 @@ theorem wordsFineB_sound {cfg : Cfg} {ws : List Spec.Word} (h : wordsFineB cfg w
   have := (List.all_eq_true.mp h) w hw
   simpa using this
 
-/-- the domain hypotheses of one segment: C01's (`WF`, `wordDom`), C02's (`HostText`, `XText`, `EntryOk`,
-    `OneBracket`, `badre`) and C10's (`readsAsB`) -/
+/-- C01's `hd2`: the first-level names, read as words again, are in the parser's domain -/
+def rewordB (cfg : Cfg) (ws : List Spec.Word) : Bool := ws.all fun w => (reword w).all fun w' => decide (wordDom cfg w')
+
+theorem rewordB_sound {cfg : Cfg} {ws : List Spec.Word} (h : rewordB cfg ws = true) :
+    ∀ w ∈ ws, ∀ w' ∈ reword w, wordDom cfg w' := by
+  intro w hw w' hw'
+  have := (List.all_eq_true.mp ((List.all_eq_true.mp h) w hw)) w' hw'
+  simpa using this
+
+/-- the domain hypotheses of one segment: C01's (`WF`, `wordDom`, also of the first-level names), C02's
+    (`HostText`, `XText`, `Entry2Ok`, `badre`) and C10's (`readsAsB`) -/
 def segDomB (cfg : Cfg) (mode : LineMode) (fs : FS) (badre : Str → Bool) : Seg → Bool
   | .cw (.tgt w) => w.WF && decide (wordDom cfg w) && hostTextB (Spec.renderWord w) &&
-      decide (hostPart (Spec.renderWord w) = some (Spec.renderWord w)) && oneBracketB w
-  | .cw (.xcl w) => xTextB (Spec.renderWord w) && entryOkB cfg (Spec.renderWord w) w.expand₁
+      decide (hostPart (Spec.renderWord w) = some (Spec.renderWord w)) && rewordB cfg [w]
+  | .cw (.xcl w) => xTextB (Spec.renderWord w) && entry2OkB cfg (Spec.renderWord w) w.expand₁
   | .cw (.re _ p) => !badre p
-  | .tfile p ws => readsAsB mode fs p ws && wordsFineB cfg ws && ws.all oneBracketB
+  | .tfile p ws => readsAsB mode fs p ws && wordsFineB cfg ws && rewordB cfg ws
   | .xfile p ws => readsAsB mode fs p ws && wordsFineB cfg ws && decide ((xfileText cfg ws).length < 4095) &&
-      entryOkB cfg (xfileText cfg ws) (Spec.expand₁ ws)
+      entry2OkB cfg (xfileText cfg ws) (Spec.expand₁ ws)
 
 theorem segDomB_sound {cfg : Cfg} {mode : LineMode} {fs : FS} {rematch : Str → Str → Option Bool}
     {badre : Str → Bool} (paths : List Str) :
     ∀ (s : Seg), segDomB cfg mode fs badre s = true → (∀ p ∈ s.paths, p ∈ paths) →
     SegOk cfg { files := filesOf mode fs paths, rematch := rematch, badre := badre } s ∧ SegFine cfg s ∧
-    (∀ w ∈ s.words, OneBracket w) ∧ (∀ p ∈ s.ent cfg, EntryOk cfg p.1 p.2)
+    (∀ w ∈ s.words, ∀ w' ∈ reword w, wordDom cfg w') ∧ (∀ p ∈ s.ent cfg, Entry2Ok cfg p.1 p.2)
   | .cw (.tgt w), h, _ => by
     simp only [segDomB, Bool.and_eq_true, decide_eq_true_eq] at h
     obtain ⟨⟨⟨⟨h1, h2⟩, h3⟩, h4⟩, h5⟩ := h
-    refine ⟨⟨h1, h2, hostTextB_sound h3, h4⟩, ?_, ?_, by simp [Seg.ent]⟩
-    · intro x hx
-      simp only [Seg.words, List.mem_singleton] at hx
-      subst hx; exact ⟨h1, h2⟩
-    · intro x hx
-      simp only [Seg.words, List.mem_singleton] at hx
-      subst hx; exact oneBracketB_sound h5
+    refine ⟨⟨h1, h2, hostTextB_sound h3, h4⟩, ?_, rewordB_sound h5, by simp [Seg.ent]⟩
+    intro x hx
+    simp only [Seg.words, List.mem_singleton] at hx
+    subst hx; exact ⟨h1, h2⟩
   | .cw (.xcl w), h, _ => by
     simp only [segDomB, Bool.and_eq_true] at h
     refine ⟨xTextB_sound h.1, by intro x hx; simp [Seg.words] at hx, by intro x hx; simp [Seg.words] at hx, ?_⟩
     intro p hp
     simp only [Seg.ent, List.mem_singleton] at hp
-    subst hp; exact entryOkB_sound h.2
+    subst hp; exact entry2OkB_sound h.2
   | .cw (.re ex p), h, _ => by
     simp only [segDomB, Bool.not_eq_true'] at h
     exact ⟨h, by intro x hx; simp [Seg.words] at hx, by intro x hx; simp [Seg.words] at hx, by simp [Seg.ent]⟩
   | .tfile p ws, h, hp => by
-    simp only [segDomB, Bool.and_eq_true, List.all_eq_true] at h
+    simp only [segDomB, Bool.and_eq_true] at h
     obtain ⟨⟨h1, h2⟩, h3⟩ := h
     exact ⟨⟨readsAs_lookup h1 paths (hp p (by simp [Seg.paths])), wordsFineB_sound h2⟩, wordsFineB_sound h2,
-      fun w hw => oneBracketB_sound (h3 w hw), by simp [Seg.ent]⟩
+      rewordB_sound h3, by simp [Seg.ent]⟩
   | .xfile p ws, h, hp => by
     simp only [segDomB, Bool.and_eq_true, decide_eq_true_eq] at h
     obtain ⟨⟨⟨h1, h2⟩, h3⟩, h4⟩ := h
@@ -634,7 +621,7 @@ theorem segDomB_sound {cfg : Cfg} {mode : LineMode} {fs : FS} {rematch : Str →
       by intro x hx; simp [Seg.words] at hx, by intro x hx; simp [Seg.words] at hx, ?_⟩
     intro q hq
     simp only [Seg.ent, List.mem_singleton] at hq
-    subst hq; exact entryOkB_sound h4
+    subst hq; exact entry2OkB_sound h4
 
 /-- the words the target list is made of: those of the target segments, files inlined where they stand;
     WCOLL's iff there is no target segment -/
@@ -658,7 +645,7 @@ def envOf (mode : LineMode) (fs : FS) (rematch : Str → Str → Option Bool) (b
     (segs : List Seg) (wenv : Option (Str × List Spec.Word)) : Env :=
   { files := filesOf mode fs (allPaths segs wenv), rematch := rematch, badre := badre }
 
-/-- `opt->wcoll` before the exclusions are applied -/
+/-- `opt->wcoll` before `wcoll_expand` -/
 def finalEL (cfg : Cfg) (segs : List Seg) (wenv : Option (Str × List Spec.Word)) : Option EL :=
   match (segs.foldl (step cfg) {}).wcoll, wenv with
   | none, some (_, ws) => some (fileEL cfg ws)
@@ -672,42 +659,29 @@ def targetDomain (cfg : Cfg) (mode : LineMode) (fs : FS) (rematch : Str → Str 
   -- there is a source of targets; WCOLL, if it is consulted, is a readable file of words
   (segs.any Seg.isTgt ||
     match wenv with
-    | some (p, ws) => readsAsB mode fs p ws && wordsFineB cfg ws && ws.all oneBracketB
+    | some (p, ws) => readsAsB mode fs p ws && wordsFineB cfg ws && rewordB cfg ws
     | none => false) &&
-  -- every first-level name is a plain name C01's `create` takes (second expansion)
-  (((tgtWords segs wenv).flatMap Spec.Word.expand₂).all fun h =>
-    (Spec.Word.plain h).WF && decide (wordDom cfg (Spec.Word.plain h))) &&
   -- the regex oracle answers for every pattern and target
   ((segs.flatMap Seg.reg).all fun p =>
-    ((tgtWords segs wenv).flatMap Spec.Word.expand₂).all fun h => (rematch p.2 h).isSome) &&
-  -- C02's `low`: numbers below 10^15 (a hypothesis on the list, not on the words)
+    (Spec.expand₂ (tgtWords segs wenv)).all fun h => (rematch p.2 h).isSome) &&
+  -- C01's `hf` for `wcoll_expand₂`: the numbers of the assembled list fit `hostrange_shift`'s buffer
+  -- (a hypothesis on the list, not on the words)
   (match finalEL cfg segs wenv with
-   | some e => decide (e.HiBelow (10 ^ 15))
+   | some e => decide (∀ r ∈ e.ranges, r.ShiftFits)
    | none => true)
 
-theorem expand₁_eq_expand₂ : ∀ (ws : List Spec.Word), (∀ w ∈ ws, OneBracket w) →
-    Spec.expand₁ ws = ws.flatMap Spec.Word.expand₂
-  | [], _ => rfl
-  | w :: ws, h => by
-    have ih := expand₁_eq_expand₂ ws fun x hx => h x (by simp [hx])
-    unfold Spec.expand₁ at ih ⊢
-    simp only [List.flatMap_cons, ih, expand₂_oneBracket w (h w (by simp))]
-
-theorem segs_tgt_expand₂ : ∀ (segs : List Seg), (∀ s ∈ segs, ∀ w ∈ s.words, OneBracket w) →
-    segs.flatMap Seg.tgt = (segs.flatMap Seg.words).flatMap Spec.Word.expand₂
-  | [], _ => rfl
-  | s :: segs, h => by
-    have ih := segs_tgt_expand₂ segs fun x hx => h x (by simp [hx])
-    have h1 : s.tgt = s.words.flatMap Spec.Word.expand₂ := by
-      have ho := h s (by simp)
-      match s, ho with
-      | .cw (.tgt w), ho =>
-        simp only [Seg.tgt, Seg.words, List.flatMap_cons, List.flatMap_nil, List.append_nil]
-        exact (expand₂_oneBracket w (ho w (by simp [Seg.words]))).symm
-      | .cw (.xcl _), _ => rfl
-      | .cw (.re _ _), _ => rfl
-      | .tfile _ ws, ho => exact expand₁_eq_expand₂ ws ho
-      | .xfile _ _, _ => rfl
+theorem segs_tgt_expand₁ : ∀ (segs : List Seg), segs.flatMap Seg.tgt = Spec.expand₁ (segs.flatMap Seg.words)
+  | [] => rfl
+  | s :: segs => by
+    have ih := segs_tgt_expand₁ segs
+    have h1 : s.tgt = Spec.expand₁ s.words := by
+      match s with
+      | .cw (.tgt w) => simp [Seg.tgt, Seg.words, Spec.expand₁]
+      | .cw (.xcl _) => rfl
+      | .cw (.re _ _) => rfl
+      | .tfile _ ws => rfl
+      | .xfile _ _ => rfl
+    unfold Spec.expand₁ at ih h1 ⊢
     simp only [List.flatMap_cons, List.flatMap_append, ih, h1]
 
 theorem ent_names (cfg : Cfg) : ∀ (segs : List Seg),
@@ -724,18 +698,19 @@ theorem ent_names (cfg : Cfg) : ∀ (segs : List Seg),
 
 /-- the formula: the targets in source order, minus every excluded name, filtered by every regex -/
 def targetSpec (env : Env) (segs : List Seg) (wenv : Option (Str × List Spec.Word)) : List Str :=
-  ((((tgtWords segs wenv).flatMap Spec.Word.expand₂).filter fun h => !(segs.flatMap Seg.xnames).contains h).filter
+  (((Spec.expand₂ (tgtWords segs wenv)).filter fun h => !(segs.flatMap Seg.xnames).contains h).filter
     (keepAll env (segs.flatMap Seg.reg)))
 
 theorem targetList_correct (cfg : Cfg) (hD1 : cfg.fixDeleteAll = true) (hD17 : cfg.fixIterSuffix = true)
-    (hD19 : cfg.fixRemoveDepth = true) (mode : LineMode) (fs : FS) (rematch : Str → Str → Option Bool)
+    (hD19 : cfg.fixRemoveDepth = true) (h2 : cfg.fix2Br = true) (mode : LineMode) (fs : FS)
+    (rematch : Str → Str → Option Bool)
     (badre : Str → Bool) (segs : List Seg) (wenv : Option (Str × List Spec.Word))
     (hdom : targetDomain cfg mode fs rematch badre segs wenv = true) :
     targetList cfg (envOf mode fs rematch badre segs wenv) (wenv.map (·.1)) (segs.map Seg.text) =
       .ok (targetSpec (envOf mode fs rematch badre segs wenv) segs wenv) := by
   unfold targetDomain at hdom
-  simp only [Bool.and_eq_true, List.all_eq_true, decide_eq_true_eq] at hdom
-  obtain ⟨⟨⟨⟨d1, d2⟩, d3⟩, d4⟩, d5⟩ := hdom
+  simp only [Bool.and_eq_true, List.all_eq_true] at hdom
+  obtain ⟨⟨⟨d1, d2⟩, d4⟩, d5⟩ := hdom
   -- the segments, one by one
   have hseg := fun s (hs : s ∈ segs) =>
     segDomB_sound (cfg := cfg) (mode := mode) (fs := fs) (rematch := rematch) (badre := badre)
@@ -745,10 +720,9 @@ theorem targetList_correct (cfg : Cfg) (hD1 : cfg.fixDeleteAll = true) (hD17 : c
     (fun s hs => (hseg s hs).1)
   obtain ⟨i1, i2, i3, i4⟩ := foldl_step_spec cfg segs {} [] (by simp [WInv]) (fun s hs => (hseg s hs).2.1)
   simp only [List.nil_append, List.append_nil, Option.isSome_none, Bool.false_or] at i1 i2 i3 i4
-  have hone : ∀ s ∈ segs, ∀ w ∈ s.words, OneBracket w := fun s hs => (hseg s hs).2.2.1
   -- the exclusion entries (the stack is walked newest first) and the filters
   let es : List (Str × List Str) := (segs.flatMap (Seg.ent cfg)).reverse
-  have hes : ∀ p ∈ es, EntryOk cfg p.1 p.2 := by
+  have hes : ∀ p ∈ es, Entry2Ok cfg p.1 p.2 := by
     intro p hp
     obtain ⟨s, hs, hps⟩ := List.mem_flatMap.mp (List.mem_reverse.mp hp)
     exact (hseg s hs).2.2.2 p hps
@@ -756,21 +730,22 @@ theorem targetList_correct (cfg : Cfg) (hD1 : cfg.fixDeleteAll = true) (hD17 : c
     simp [es, List.map_reverse]
   -- the list the later stages start from, in both cases
   have key : ∀ (e : EL), finalEL cfg segs wenv = some e →
-      WInv (some e) ((tgtWords segs wenv).flatMap Spec.Word.expand₂) →
+      e.Good → e.hosts = Spec.expand₁ (tgtWords segs wenv) →
+      (∀ w ∈ tgtWords segs wenv, w.WF = true) →
+      (∀ w ∈ tgtWords segs wenv, ∀ w' ∈ reword w, wordDom cfg w') →
       finish cfg (envOf mode fs rematch badre segs wenv)
         { wcoll := some e, excl := (segs.foldl (step cfg) {}).excl, regex := (segs.foldl (step cfg) {}).regex } =
       .ok (targetSpec (envOf mode fs rematch badre segs wenv) segs wenv) := by
-    intro e hfe hI
-    have hlow : e.HiBelow (10 ^ 15) := by
+    intro e hfe hg hh hwf hd2
+    have hsf : ∀ r ∈ e.ranges, r.ShiftFits := by
       rw [hfe] at d5; simpa using d5
     rw [i2, i3, ← hesm]
-    rw [finish_correct cfg hD1 hD17 hD19 _ e _ es _ hI hlow hes
-      (fun p hp h hh => d4 p (List.mem_reverse.mp hp) h hh)
-      (fun h hh => by simpa using d3 h hh)]
+    rw [finish_correct cfg hD1 hD17 hD19 h2 _ e (tgtWords segs wenv) es _ hg hh hwf hd2 hsf hes
+      (fun p hp h hh' => d4 p (List.mem_reverse.mp hp) h hh')]
     unfold targetSpec
     congr 1
-    have hf1 : ((tgtWords segs wenv).flatMap Spec.Word.expand₂).filter (fun h => !(es.flatMap (·.2)).contains h) =
-        ((tgtWords segs wenv).flatMap Spec.Word.expand₂).filter (fun h => !(segs.flatMap Seg.xnames).contains h) := by
+    have hf1 : (Spec.expand₂ (tgtWords segs wenv)).filter (fun h => !(es.flatMap (·.2)).contains h) =
+        (Spec.expand₂ (tgtWords segs wenv)).filter (fun h => !(segs.flatMap Seg.xnames).contains h) := by
       apply List.filter_congr
       intro h _
       congr 1
@@ -789,11 +764,18 @@ theorem targetList_correct (cfg : Cfg) (hD1 : cfg.fixDeleteAll = true) (hD17 : c
     obtain ⟨e, he⟩ := Option.isSome_iff_exists.mp i4
     have hfe : finalEL cfg segs wenv = some e := by
       unfold finalEL; rw [he]
-    have hT : segs.flatMap Seg.tgt = (tgtWords segs wenv).flatMap Spec.Word.expand₂ := by
-      rw [segs_tgt_expand₂ segs hone]; simp [tgtWords, hany]
+    have hW : tgtWords segs wenv = segs.flatMap Seg.words := by simp [tgtWords, hany]
     rw [he] at i1
-    rw [hT] at i1
-    have := key e hfe i1
+    obtain ⟨g, _, _, hh⟩ := i1
+    have := key e hfe g (by rw [hh, segs_tgt_expand₁, hW])
+      (by
+        rw [hW]; intro w hw
+        obtain ⟨s, hs, hws⟩ := List.mem_flatMap.mp hw
+        exact ((hseg s hs).2.1 w hws).1)
+      (by
+        rw [hW]; intro w hw
+        obtain ⟨s, hs, hws⟩ := List.mem_flatMap.mp hw
+        exact (hseg s hs).2.2.1 w hws)
     rw [he]
     simp only
     rw [← this]
@@ -807,20 +789,18 @@ theorem targetList_correct (cfg : Cfg) (hD1 : cfg.fixDeleteAll = true) (hD17 : c
       | none => rfl
       | some e => rw [h] at i4; simp at i4
     simp only [hany, Bool.false_or] at d2
-    match wenv, d2, key, d3, d4, d5 with
-    | some (p, ws), d2, key, _, _, _ =>
-      simp only [Bool.and_eq_true, List.all_eq_true] at d2
+    match wenv, d2, key, d4, d5 with
+    | some (p, ws), d2, key, _, _ =>
+      simp only [Bool.and_eq_true] at d2
       obtain ⟨⟨r1, r2⟩, r3⟩ := d2
       have hfine := wordsFineB_sound r2
       have hlk := readsAs_lookup r1 (allPaths segs (some (p, ws))) (by simp [allPaths])
       have hfe : finalEL cfg segs (some (p, ws)) = some (fileEL cfg ws) := by
         unfold finalEL; rw [hnone]
-      obtain ⟨g, hh, ids, its⟩ := assembleE_spec cfg ws EL.new new_good hfine
-      have hI : WInv (some (fileEL cfg ws)) ((tgtWords segs (some (p, ws))).flatMap Spec.Word.expand₂) := by
-        refine ⟨g, ids new_ids, by rw [fileEL, its]; rfl, ?_⟩
-        rw [(fileEL_spec cfg ws hfine).2, expand₁_eq_expand₂ ws fun w hw => oneBracketB_sound (r3 w hw)]
-        simp [tgtWords, hany]
-      have := key _ hfe hI
+      have hW : tgtWords segs (some (p, ws)) = ws := by simp [tgtWords, hany]
+      obtain ⟨g, hh⟩ := fileEL_spec cfg ws hfine
+      have := key _ hfe g (by rw [hh, hW]) (by rw [hW]; exact fun w hw => (hfine w hw).1)
+        (by rw [hW]; exact rewordB_sound r3)
       rw [hnone]
       simp only [Option.map_some, envOf] at hlk ⊢
       rw [hlk]
